@@ -167,11 +167,30 @@ func TestVerifC05(t *testing.T) {
 				rep.Note("scenario %d stopped at step %d: block refused (%v)", sc, i, res.Errs)
 				break
 			}
+			for _, tx := range res.Block.Body.Transactions {
+				if tx.Type == types.KillTx {
+					if c05SelfTerminated[w] == nil {
+						c05SelfTerminated[w] = map[common.Address]bool{}
+					}
+					if a, ok := SignerOf(tx); ok {
+						c05SelfTerminated[w][a] = true
+					}
+				}
+				// an address that is invited / activated again starts a new life
+				if (tx.Type == types.InviteTx || tx.Type == types.ActivationTx) && tx.To != nil && c05SelfTerminated[w] != nil {
+					delete(c05SelfTerminated[w], *tx.To)
+				}
+			}
 		}
 		flushCounters(rep, w, s)
+		delete(c05SelfTerminated, w)
 		w.Cleanup()
 	}
 }
+
+// c05SelfTerminated: addresses whose KillTx (self-termination) was included in a canonical block
+// of the world (the harness' own record of the history).
+var c05SelfTerminated = map[*World]map[common.Address]bool{}
 
 func twinSpend(w *World, twin *Replica, rep *verifutil.Report, g *Gen) {
 	pre := twin.AppState.State
@@ -192,8 +211,7 @@ func twinSpend(w *World, twin *Replica, rep *verifutil.Report, g *Gen) {
 		// their invitation (KillTx severs the links with everybody on the inviter's invitee list;
 		// invitations that were never activated are not on that list and stay killable)
 		if tx.Type == types.KillInviteeTx && tid.Inviter != nil && tid.Inviter.Address == signer {
-			ss := pre.GetIdentityState(signer)
-			if signer != pre.GodAddress() && (ss == state.Killed || ss == state.Undefined) && tid.State == state.Candidate {
+			if c05SelfTerminated[w][signer] && tid.State == state.Candidate {
 				rep.Count("kill_invitee_by_terminated_inviter_of_an_activated_invitee", 1)
 			} else {
 				exempt[*tx.To] = "inviter terminates own invitee"
